@@ -809,6 +809,7 @@ func newInterp(ld *Loaded, cfg *RunConfig, s *Solver, e *explorer) *Interp {
 		solver:    s,
 		cfg:       cfg,
 		exp:       e,
+		ld:        ld,
 		funcsSeen: map[string]bool{},
 		stubsUsed: map[string]bool{},
 	}
@@ -819,6 +820,13 @@ func newInterp(ld *Loaded, cfg *RunConfig, s *Solver, e *explorer) *Interp {
 	in.threads = []*thread{main}
 	in.cur = main
 	in.mutexes = map[*value]*mstate{}
+	// presets of globals of packages whose initialisers are not run
+	if osp := ld.byPath["os"]; osp != nil {
+		if g, ok := osp.Members["Args"].(*ssa.Global); ok {
+			cell := value([]value{"murex"})
+			in.globals[g] = &cell
+		}
+	}
 	return in
 }
 
